@@ -91,12 +91,13 @@ Inductive site :=
 | SRepeatCheck (id : nat)        (* Repeat: failOnError after a post-action check *)
 | SRepeatAction (id : nat)       (* runAction: failOnError after the action *)
 | SNoValid (id : nat)            (* executeAction: no valid action *)
+| SCustomFOE                     (* customGen.maybeValue: failOnError after the Custom function returned *)
 | SInternal (m : msg).           (* assertion inside rapid *)
 
 Definition site_eqb (a b : site) : bool :=
   match a, b with
   | SUser x, SUser y => Nat.eqb x y
-  | STopFailOnError, STopFailOnError | SLate, SLate => true
+  | STopFailOnError, STopFailOnError | SLate, SLate | SCustomFOE, SCustomFOE => true
   | SRepeatInit x, SRepeatInit y | SRepeatCheck x, SRepeatCheck y
   | SRepeatAction x, SRepeatAction y | SNoValid x, SNoValid y => Nat.eqb x y
   | SInternal x, SInternal y => msg_eqb x y
